@@ -264,6 +264,83 @@ pub fn c09() -> i32 {
         let out = explore(&scns, &cfg, &judge);
         rep.absorb("detection half with k further deviations on Input/ChecksumReport packets", out, &props, json!({"k": cfg.k, "configs": scns.len()}));
     }
+    // ---- both halves over the configuration space the grids above fix: four peers, two local
+    // players, spectators, latencies 0..3, a slow peer, PredictDefault, other input programs
+    {
+        let mut scns = Vec::new();
+        // (topology, window, delay, sparse, latency, spectators, slow peer, predictor, program)
+        let cfgs: Vec<(&str, usize, usize, bool, i32, usize, bool, Pred, Program)> = vec![
+            ("1+1+1+1", 8, 0, false, 1, 0, false, Pred::RepeatLast, Program::Changing),
+            ("2+1", 3, 1, false, 2, 1, false, Pred::Default, Program::Runs),
+            ("1+2", 8, 2, true, 0, 0, true, Pred::RepeatLast, Program::Sparse),
+            ("1+1", 2, 0, false, 3, 2, false, Pred::RepeatLast, Program::Changing),
+            ("1+1+1", 4, 3, false, 2, 1, true, Pred::Default, Program::Changing),
+            ("2+2", 12, 0, true, 1, 0, false, Pred::RepeatLast, Program::Runs),
+            ("1+1", 1, 1, false, 0, 0, true, Pred::RepeatLast, Program::Constant),
+        ];
+        for (ci, (tp, w, d, sparse, lat, nspec, slow, pred, prog)) in cfgs.into_iter().enumerate() {
+            if !t && ci >= 5 {
+                continue;
+            }
+            for iv in [1u32, 3, 8] {
+                if !t && iv == 8 {
+                    continue;
+                }
+                let mut base = base_scn("c09-cfg", tp, w, d, sparse, pred, prog, lat);
+                for p in base.peers.iter_mut() {
+                    p.desync = iv;
+                }
+                for k in 0..nspec {
+                    base.specs.push(SpecSpec::new(20 + k as u8, base.peers[0].addr));
+                }
+                if slow {
+                    base.peers.last_mut().unwrap().tick_every = 2;
+                }
+                base.name = format!("{} interval={iv} spectators={nspec} slow-last-peer={slow}", base.name);
+                let (a, b) = (base.peers[0].addr, base.peers[1].addr);
+                // false-alarm half: no fault, and bursts in each direction
+                for (len, dir) in [(0, 0), (3, 0), (7, 1), (12, 2), (5, 2)] {
+                    let mut s = base.clone();
+                    if len > 0 {
+                        if dir != 1 {
+                            s.outages.push(Outage { from: b, to: a, start: 4, len, classes: CLASS_ALL });
+                        }
+                        if dir != 0 {
+                            s.outages.push(Outage { from: a, to: b, start: 4, len, classes: CLASS_ALL });
+                        }
+                    }
+                    s.name = format!("{} outage len={len} dir={dir}", s.name);
+                    s.horizon = 4 + len + 2;
+                    s.probe = 4 * iv as i32 + 40;
+                    s.checks = CK_CORE;
+                    scns.push(s);
+                }
+                // detection half (the statement excludes sparse saving)
+                let last = base.peers.len() - 1;
+                for g in [1, 6, 13, 22] {
+                    if sparse {
+                        break;
+                    }
+                    for dn in [0usize, last] {
+                        if !t && g == 13 && dn == 0 {
+                            continue;
+                        }
+                        let mut s = base.clone();
+                        s.diverge = Some((dn, g));
+                        s.name = format!("{} node {dn} diverges from frame {g}", s.name);
+                        s.horizon = 4;
+                        s.probe = (if slow { 2 } else { 1 }) * (g + 4 * iv as i32 + 2 * w as i32 + 2 * lat + d as i32 + 40);
+                        s.checks = CK_C02 | CK_C03 | CK_C04;
+                        scns.push(s);
+                    }
+                }
+            }
+        }
+        let n = scns.len();
+        let cfg = ExploreCfg { k: Some(0), wall: Duration::from_secs(if t { 900 } else { 40 }), ..Default::default() };
+        let out = explore(&scns, &cfg, &judge);
+        rep.absorb("both halves over seven further configurations (four peers, two local players per peer, spectators, latencies 0..3, a peer ticking at half rate, PredictDefault, all input programs)", out, &props, json!({"k": 0, "scenarios": n}));
+    }
     let det = DETECTED.load(std::sync::atomic::Ordering::Relaxed);
     let nr = NOT_REACHED.load(std::sync::atomic::Ordering::Relaxed);
     rep.coverage.insert("detections_observed_and_checked".into(), json!(det));
